@@ -459,6 +459,20 @@ Check par_is_single_lane :
   exists t ht, txt = Some t /\ from_data heap_of t = Some ht /\ out = huff_encode ht d.
 Print Assumptions par_is_single_lane.
 
+(* AdaptiveParallelEncoder::encode_adaptive on its Huffman arms (train on the payload, then encode it, on the member object the
+   payload size selects, in whatever state that object is): never refuses, and a HuffmanDecoder on from_data(payload) returns
+   the payload *)
+Theorem adaptive_huffman_roundtrip :
+  forall heap_of d st, heap_any heap_of -> bytes_ok d -> N.of_nat (length d) < W32 ->
+  exists ht b st', from_data heap_of d = Some ht /\ ad_huffman heap_of d st = (st', Some b) /\
+                   huff_decode ht b (length d) = Some d.
+Proof. exact adaptive_huffman_roundtrip_proof. Qed.
+Check adaptive_huffman_roundtrip :
+  forall heap_of d st, heap_any heap_of -> bytes_ok d -> N.of_nat (length d) < W32 ->
+  exists ht b st', from_data heap_of d = Some ht /\ ad_huffman heap_of d st = (st', Some b) /\
+                   huff_decode ht b (length d) = Some d.
+Print Assumptions adaptive_huffman_roundtrip.
+
 (* ---------------------------------------------------------------------------------------------
    rANS / FSE / LZ half.  The import below comes after the Huffman theorems on purpose: the two halves
    define a few names twice (e.g. dec_loop) and the later import shadows the earlier one.
